@@ -488,7 +488,11 @@ static void exec_op(RunState &rs, int i) {
 	}
 	case RO_GUARD: case RO_LIFT: {
 		int prot = o.kind == RO_GUARD ? PROT_READ : (PROT_READ | PROT_WRITE);
-		if (o.c >= 0 && rs.C[o.c]) seam::guard_range(randomx_get_cache_memory(rs.C[o.c]), randomx::CacheSize, prot);
+		if (o.c >= 0 && rs.C[o.c]) {
+			seam::guard_range(randomx_get_cache_memory(rs.C[o.c]), randomx::CacheSize, prot);
+			// the cache object itself (SuperscalarHash programs, bookkeeping) is shared read-only state too
+			seam::guard_range(rs.C[o.c], sizeof(randomx_cache), prot);
+		}
 		if (o.d >= 0 && rs.D[o.d]) seam::guard_range(randomx_get_dataset_memory(rs.D[o.d]), (size_t)dataset_items() * 64, prot);
 		if (o.kind == RO_GUARD) rs.rep->probes["ro_guard"]++;
 		res.executed = true;
